@@ -99,7 +99,8 @@ CLAIMED = {
              "between runs; construction, _self_add, transfer, remove, fill_to take the same decision (same error class) and yield R-related "
              "results; by induction every script of container operations does (crun_R); on R-related states get_volume, get_concentration, "
              "per-substance amounts and totals in every user unit coincide. Extended to whole programs (run_R): plates in every transfer form, remove "
-             "and fill_to on regions, dilute, create_solution with a pure solvent. Solutions from containers, recipes and tracking queries are covered by "
+             "and fill_to on regions, dilute, create_solution with a pure solvent; and to recipes (bake_R: same decision, related tables and snapshots) "
+             "with the three tracking queries over every timeframe (same answers in user units). Solutions built from a container are covered by "
              "the correspondence: the same generated scripts run in SEPARATE PROCESSES under 7-9 configurations (uL/umol, mL/mmol, nmol, mol, "
              "L, daL, precision 12) are compared pairwise in user units and each against the model under the matching cfg (partial for those).",
              technique="Coq proof (simulation between configurations, induction over scripts); multi-process differential correspondence across configurations",
